@@ -70,7 +70,7 @@ class TypeRender:
 
     BYSTANDER_PROPS = ('C02', 'C03', 'C05', 'C06', 'C07', 'C09', 'C10')
 
-    FIELD_TYPES = {'A': 'TA', 'B': 'TB', 'P': 'P', 'ref': "&'static P", 'refmut': "&'static mut P", 'bool': 'bool', 'u64': 'u64', 'unit': '()', 'char': 'char',
+    FIELD_TYPES = {'A': 'TA', 'B': 'TB', 'P': 'P', 'ref': "&'static P", 'refmut': "&'static mut P", 'refref': "&'static &'static P", 'bool': 'bool', 'u64': 'u64', 'unit': '()', 'char': 'char',
                    'str': "&'static str", 'nz': '::core::num::NonZeroU8', 'opt': 'Option<u8>', 'nested': 'probes::Inner'}
     with_finger = True
 
@@ -445,7 +445,19 @@ class TypeRender:
     def where_decl(self):
         return ''
 
+    MACRO_WRAP_PROPS = ('C01', 'C02', 'C03', 'C05', 'C06', 'C07', 'C08', 'C09', 'C10', 'C19')
+
     def item(self, derive=True):
+        text = self.item_plain(derive)
+        # a quarter of the compiled items are declared through a macro_rules! helper whose body holds the derive while
+        # the item itself (attributes, fields) comes from the invocation: tokens of two hygiene contexts in one derive input
+        if derive and not self.canonical and self.prop in self.MACRO_WRAP_PROPS and hpick(4, self.idx, 'macrowrap') == 0 \
+                and text.startswith('#[derive(Educe)] '):
+            body = text[len('#[derive(Educe)] '):]
+            return 'macro_rules! w__%d { ($($t:tt)*) => { #[derive(Educe)] $($t)* } } w__%d! { %s }' % (self.idx, self.idx, body)
+        return text
+
+    def item_plain(self, derive=True):
         self.sites = []
         c = self.cfg
         head = '%s%s%s' % ('#[derive(Educe)] ' if derive else '', self.type_attr(), self.repr_attr())
@@ -519,6 +531,8 @@ class TypeRender:
             return '&*Box::leak(Box::new(P::new(%s, %d, %s)))' % (side, i, val)
         if ty == 'refmut':
             return 'Box::leak(Box::new(P::new(%s, %d, %s)))' % (side, i, val)
+        if ty == 'refref':
+            return '&*Box::leak(Box::new(&*Box::leak(Box::new(P::new(%s, %d, %s)))))' % (side, i, val)
         return 'probes::mk_%s(%s)' % (ty, val)
 
     def var_pattern(self, v, var, names):
